@@ -116,8 +116,7 @@ func (fa *fileAnalysis) engine(fn *ssa.Function) *an.Facts {
 				}
 				if s.void || s.single {
 					for _, f := range s.facts {
-						i := strings.Index(f, ":")
-						cur[f[:i+1]+recvD+strings.TrimPrefix(f[i+1:], s.recv)] = true
+						cur[an.RebaseFact(f, s.recv, recvD)] = true
 					}
 				}
 			}
@@ -209,13 +208,7 @@ func (fa *fileAnalysis) engine(fn *ssa.Function) *an.Facts {
 					}
 					if s := fa.sums[an.Callee(call)]; s != nil && len(call.Call.Args) > 0 {
 						for _, f := range s.facts {
-							i := strings.Index(f, ":")
-							kind, p := f[:i+1], f[i+1:]
-							rest := strings.TrimPrefix(p, s.recv)
-							cur[kind+d.Of(call.Call.Args[0])+rest] = true
-							if !s.returnsRecv {
-								_ = 0
-							}
+							cur[an.RebaseFact(f, s.recv, d.Of(call.Call.Args[0]))] = true
 						}
 					}
 				}
@@ -303,8 +296,9 @@ func analyseFilePkg(c *core.Ctx) *fileAnalysis {
 			}
 			sort.Strings(s.stores)
 			for k := range common {
-				i := strings.Index(k, ":")
-				if strings.HasPrefix(k[i+1:], recv+".") {
+				// plain facts about the receiver's fields, and disjunctions of two such facts
+				// ("volume or peak-rate is set")
+				if an.FactAbout(k, recv+".") {
 					s.facts = append(s.facts, k)
 				}
 			}
